@@ -91,6 +91,37 @@ theorem accepted_alike_rfc7405 (X : String) (a b : Nat) (hs : (X, a, b) ∈ Abnf
     (defined_of_closedFast _ Obl.Bundled.bundled_closed b hlb) f2 hf2
   exact ⟨A.1.trans ((reader_equiv_rfc7405 X a b hs s 0 s.length).trans B.1.symm), A.2, B.2⟩
 
+/-! ### engine level for the RFC 5234 module -/
+
+theorem meta5234_wf : wfCheck meta5234 AbnfGen.metaGNullable AbnfGen.metaGRank AbnfGen.metaGK AbnfGen.metaGD = true := by
+  decide +kernel
+theorem meta5234_plain : plainGB meta5234 = true := by decide +kernel
+theorem meta5234_closed : closedGB meta5234 = true := by decide +kernel
+theorem reach_plain_5234 : plainOnG AbnfGen.bundledG AbnfGen.c15Mask5234 = true := by decide +kernel
+theorem seeds_in_mask_5234 : AbnfGen.c15Seeds5234.all (fun sd => AbnfGen.c15Mask5234.testBit sd.2.2) = true := by decide +kernel
+theorem seeds_defined_5234 : AbnfGen.c15Seeds5234.all (fun sd => definedB meta5234 sd.2.1) = true := by decide +kernel
+
+/-- **Engine level, RFC 5234 module**: the model's `parse_all` over the reader's table with `char-val` in its RFC 5234 form and
+over the bundled table accept the same texts for each of the 21 rules; a text not accepted gets ParseError on both sides. -/
+theorem accepted_alike_rfc5234 (X : String) (a b : Nat) (hs : (X, a, b) ∈ AbnfGen.c15Seeds5234)
+    (perm1 perm2 : List Match → List Match) (hp1 : SameMembers perm1) (hp2 : SameMembers perm2) (s : Src) (f1 f2 : Nat)
+    (hf1 : fuelFor AbnfGen.metaGK AbnfGen.metaGD s.length AbnfGen.metaGK 0 ≤ f1)
+    (hf2 : fuelFor AbnfGen.bundledG.size AbnfGen.bundledGD s.length AbnfGen.bundledG.size 0 ≤ f2) :
+    (Accepts perm1 meta5234 f1 s a ↔ Accepts perm2 AbnfGen.bundledG f2 s b) ∧
+    (¬ Accepts perm1 meta5234 f1 s a → parseAllWith perm1 meta5234 f1 s a = .fail) ∧
+    (¬ Accepts perm2 AbnfGen.bundledG f2 s b → parseAllWith perm2 AbnfGen.bundledG f2 s b = .fail) := by
+  have h := List.all_eq_true.mp seeds_5234.2 _ hs
+  simp only [seedOk, Bool.and_eq_true, decide_eq_true_eq] at h
+  obtain ⟨⟨_, hlb⟩, _⟩ := h
+  have hmb := List.all_eq_true.mp seeds_in_mask_5234 _ hs
+  have hda := List.all_eq_true.mp seeds_defined_5234 _ hs
+  have A := accepts_iff_derivable_on (wfCheck_sound _ _ _ _ _ meta5234_wf) (closedGB_sound _ meta5234_closed) _
+    (gplainOn_of_gplain (plainGB_sound _ meta5234_plain)) perm1 hp1 s a trivial (definedB_sound hda) f1 hf1
+  have B := accepts_iff_derivable_on C09.bundled_wellformed C09.bundled_closed _
+    (plainOnG_sound _ _ reach_plain_5234) perm2 hp2 s b hmb
+    (defined_of_closedFast _ Obl.Bundled.bundled_closed b hlb) f2 hf2
+  exact ⟨A.1.trans ((reader_equiv_rfc5234 X a b hs s 0 s.length).trans B.1.symm), A.2, B.2⟩
+
 /-- non-vacuity -/
 example : AbnfGen.c15Seeds7405.length = 24 ∧ AbnfGen.c15Seeds5234.length = 21 := by decide +kernel
 
